@@ -181,6 +181,12 @@ def body_cli(case, rec):
             raise Violation(f"asm-format reported {got}, brute force finds {sorted(exp)}")
         if want and "Overlaps detected in assembly" not in res.stderr:
             raise Violation("missing 'Overlaps detected' header on stderr")
+        # the same assembly on standard input
+        res3 = remap.run_cli_subprocess(["--qc-overlaps", "-o", d / "out3.agp"], script="asm_format", stdin=text)
+        if res3.returncode != 0:
+            raise Violation(f"asm-format --qc-overlaps reading STDIN failed: {res3.stderr[-300:]}")
+        if res3.stderr.count("\nOverlap:\n") != len(want):
+            raise Violation(f"asm-format --qc-overlaps on STDIN reported {res3.stderr.count(chr(10) + 'Overlap:' + chr(10))} pairs, brute force finds {len(want)}")
         # the same file given twice under one stem (v1/in.agp v2/in.agp): every file's overlaps are reported
         if want:
             (d / "v1").mkdir()
@@ -200,7 +206,8 @@ def body_cli(case, rec):
 @st.composite
 def assemblies(draw):
     n_sc = draw(st.integers(1, 4))
-    names = draw(st.sampled_from([["c"], ["c", "d"], ["c", "d", "e"]]))
+    # the last two pools hold different contig names whose natural-sort keys are equal
+    names = draw(st.sampled_from([["c"], ["c", "d"], ["c", "d", "e"], ["ctg1", "ctg001", "ctg01"], ["chrI", "chr1", "SUPER_2", "SUPER_II"]]))
     hi = draw(st.sampled_from([6, 12, 30]))
     scaffolds = []
     for si in range(n_sc):
